@@ -357,9 +357,7 @@ def select(prop, tier, only, seed=0):
     for ob in registry.OBLIGATIONS:
         if prop not in ob["props"]:
             continue
-        if only:
-            if any(o in ob["name"] for o in only):
-                obs.append(ob)
+        if only and not any(o in ob["name"] for o in only):
             continue
         if tier == "quick" and (ob.get("tier", "quick") != "quick" or ob.get("prop_tiers", {}).get(prop) == "thorough"):
             skipped.append(ob["name"])
